@@ -422,6 +422,22 @@ func TestVerifC04MinPrefix(t *testing.T) {
 	}
 	close(ch)
 	wg.Wait()
+	// (f) a station that holds several private keys (a key directory, e.g. during key rotation): clients obfuscate their
+	// prefix tags for one of them, not necessarily the first of the station's list
+	for use := 0; use < 3; use++ {
+		ks := vNewStationKeys(t, fmt.Sprintf("c04-keys-%d", use), 3, use)
+		krng := kit.Rand(fmt.Sprintf("c04-keys-%d", use))
+		for i, c := range cfgs {
+			if rec.Violations() > 60 {
+				break
+			}
+			if c.TT != pb.TransportType_Prefix && i > 0 {
+				continue
+			}
+			cut := 1 + (i*7+use)%(c.FLen-1)
+			c04Session(ks, rec, krng, c04Case{TT: c.TT, Params: c.Params, Desc: fmt.Sprintf("%s station-keys=3 client-key=%d", c.Desc, use), Cuts: []int{cut}, Early: 31, Others: i%2 == 0})
+		}
+	}
 }
 
 // ---- obfs4: interactive handshake through a segmenting pump ------------------------------------------
